@@ -10,6 +10,7 @@ import HealSparse.Props.C04
 import HealSparse.Lemmas.Valid
 import HealSparse.Lemmas.SubMap
 import HealSparse.Lemmas.CacheWorld
+import HealSparse.Lemmas.ApiAccounting
 namespace HS
 namespace C02
 
@@ -277,5 +278,356 @@ example : (∀ e ∈ (runLines exCacheOwning).pool, e.2.view = none → e.2.Cach
 #guard answers exCacheOwning == ["ok", "ok", "1", "1", "ok", "3"]
 #guard answers exStaleView == ["ok", "ok", "ok", "1", "ok", "2", "2"]
 
+/-! ## Driver level: the accounting observers of the protocol -/
+
+section driver
+open ApiAccounting (countUnder fracMap fracVal)
+
+/-- the dense valid set of a map object: the ONE list every observer below is a function of -/
+abbrev vsOf (m : MapObj) : List Nat := validSet m.c m.vc m.st
+
+/-! the helper lemmas of Lemmas/ApiAccounting.lean (which restates `validSet` / `validIn`: this
+file imports it) in the vocabulary of this file -/
+
+theorem validSet_bridge {V : Type} (c : Cfg) (vc : VCfg V) (s : State V) :
+    ApiAccounting.validSet c vc s = validSet c vc s := rfl
+theorem validIn_bridge {V : Type} (c : Cfg) (vc : VCfg V) (s : State V) (k : Nat) :
+    ApiAccounting.validIn c vc s k = validIn c vc s k := rfl
+
+theorem validSet_sorted {V : Type} (c : Cfg) (vc : VCfg V) (s : State V) :
+    (validSet c vc s).Pairwise (· < ·) := ApiAccounting.validSet_sorted c vc s
+
+theorem mem_validSet {V : Type} {c : Cfg} {vc : VCfg V} {s : State V} {p : Nat} :
+    p ∈ validSet c vc s ↔ p < c.npix ∧ vc.valid (abs c vc s p) = true := ApiAccounting.mem_validSet
+
+theorem validIn_sorted {V : Type} (c : Cfg) (vc : VCfg V) (s : State V) (k : Nat) :
+    (validIn c vc s k).Pairwise (· < ·) := ApiAccounting.validIn_sorted c vc s k
+
+theorem validSet_eq_flatMap {V : Type} (c : Cfg) (vc : VCfg V) (s : State V) :
+    validSet c vc s =
+      (List.range c.ncov).flatMap fun k => (validIn c vc s k).map fun j => k * c.nfine + j :=
+  ApiAccounting.validSet_eq_flatMap c vc s
+
+theorem validIn_eq_filter {V : Type} (c : Cfg) (vc : VCfg V) (s : State V) {K : Nat} (hK : K < c.ncov) :
+    ((validIn c vc s K).map fun j => K * c.nfine + j) =
+      (validSet c vc s).filter fun p => p >>> c.shift == K :=
+  ApiAccounting.validIn_eq_filter c vc s hK
+
+theorem countUnder_eq (m : MapObj) (O q : Nat) :
+    countUnder m O q = ((vsOf m).filter fun p => p >>> (2 * (m.spord - O)) == q).length := rfl
+
+theorem countUnder_covord (m : MapObj) (k : Nat) :
+    countUnder m m.covord k = ((vsOf m).filter fun p => p >>> m.c.shift == k).length := rfl
+
+/-- **(1) the valid set itself**: ascending, duplicate free, exactly the in-range pixels whose
+    dense value is valid; `valid_pixels` (the `list` / `pos` paths) lists a PERMUTATION of it, in
+    STORAGE order: the blocks in allocation order (`_block_to_cov_index`), ascending inside each
+    block — which is also the concatenation `iter_valid_pixels_by_covpix` / `get_covpix_maps`
+    produce (the `iter` / `covpix_maps` paths); its sorted form IS the valid set (the `mask` path
+    is the valid set by definition) -/
+theorem valid_listings {m : MapObj} (h : m.Ok) :
+    (vsOf m).Pairwise (· < ·) ∧ (vsOf m).Nodup ∧
+    (∀ p, p ∈ (vsOf m) ↔ p < m.npix ∧ m.vc.valid (m.abs p) = true) ∧
+    ∃ l, validPixels m.c m.vc m.st = some l ∧
+      l.Perm ((vsOf m).map fun p => ((p : Nat) : Int)) ∧
+      l = (((blockToCov m.c m.st).toList.flatMap fun k =>
+            (validIn m.c m.vc m.st k).map fun j => k * m.c.nfine + j).map fun p => ((p : Nat) : Int)) ∧
+      l.mergeSort (· ≤ ·) = (vsOf m).map fun p => ((p : Nat) : Int) := by
+  have hv := h.2.1.blankInvalid
+  have hs := validSet_sorted m.c m.vc m.st
+  have hnd : (vsOf m).Nodup := hs.imp fun h => by omega
+  obtain ⟨l, hl, hperm⟩ := validPixels_spec m.c m.vc m.st h.1.2 hv
+  refine ⟨hs, hnd, fun p => mem_validSet, l, hl, hperm, ?_, ?_⟩
+  · have := ApiAccounting.validPixels_storage_order h.1.2 hv
+    rw [hl] at this
+    exact Option.some.inj this
+  · have hsorted : ((vsOf m).map fun p => ((p : Nat) : Int)).Pairwise (· < ·) := by
+      rw [List.pairwise_map]
+      exact hs.imp fun h => by omega
+    have hndl : l.Nodup := hperm.nodup_iff.2 (hsorted.imp fun h => by omega)
+    refine ApiAccounting.sorted_ext_int (ApiAccounting.mergeSort_strict hndl) hsorted fun x => ?_
+    rw [(List.mergeSort_perm l _).mem_iff, hperm.mem_iff]
+
+/-- **(1) `valid n`, every path** (`path=list|mask|iter|covpix_maps|pos`: the model has one answer
+    for all five, the harness sorts the library's listing): the ascending valid set; the world is
+    unchanged -/
+theorem driver_valid {w : World} (hw : w.Good) {a : Args} {n : String} {rest : List String}
+    {m : MapObj} (ha : a.pos = n :: rest) (hg : w.get? n = some m) :
+    stepArgs w "valid" a = (w, showList toString ((vsOf m).map fun p => ((p : Nat) : Int))) := by
+  obtain ⟨_, _, _, l, hl, _, _, hs⟩ := valid_listings (hw.get hg)
+  show opValid w a = _
+  unfold opValid withMap
+  rw [ha]
+  simp only [hg, hl]
+  rw [hs]
+
+/-- **(3) `covmap n`**: entry `k` = the number of members of the valid set inside coverage pixel
+    `k`; the world is unchanged -/
+theorem driver_covmap {w : World} (hw : w.Good) {a : Args} {n : String} {rest : List String}
+    {m : MapObj} (ha : a.pos = n :: rest) (hg : w.get? n = some m) :
+    stepArgs w "covmap" a =
+      (w, showNats ((List.range m.c.ncov).map fun k => countUnder m m.covord k)) := by
+  have h := hw.get hg
+  have hv := h.2.1.blankInvalid
+  show opCovmap w a = _
+  unfold opCovmap withMap
+  rw [ha]
+  simp only [hg]
+  congr 2
+  apply List.ext_getElem?
+  intro k
+  by_cases hk : k < m.c.ncov
+  · rw [coverageCounts_eq m.c m.vc m.st h.1.2 hv k hk, List.getElem?_map, List.getElem?_range hk,
+      Option.map_some, countUnder_covord,
+      ← validIn_eq_filter m.c m.vc m.st hk, List.length_map]
+  · have h1 : (coverageCounts m.c m.vc m.st).length = m.c.ncov := by simp [coverageCounts]
+    rw [List.getElem?_eq_none (by omega), List.getElem?_eq_none (by simp; omega)]
+
+/-- the counts of `covmap` sum to the size of the valid set; a coverage pixel with a non-zero
+    count is covered, an uncovered one counts 0 -/
+theorem covmap_facts {m : MapObj} (h : m.Ok) :
+    ((List.range m.c.ncov).map fun k => countUnder m m.covord k).sum = (vsOf m).length ∧
+    (∀ k, k < m.c.ncov → countUnder m m.covord k ≠ 0 → covered m.c m.st k = true) ∧
+    (∀ k, k < m.c.ncov → covered m.c m.st k = false → countUnder m m.covord k = 0) := by
+  have hv := h.2.1.blankInvalid
+  have hcov : ∀ k, k < m.c.ncov → countUnder m m.covord k ≠ 0 → covered m.c m.st k = true := by
+    intro k hk hne
+    rw [countUnder_covord] at hne
+    have : ((validSet m.c m.vc m.st).filter fun p => p >>> m.c.shift == k) ≠ [] := by
+      intro he; rw [he] at hne; exact hne rfl
+    obtain ⟨p, hp⟩ := List.exists_mem_of_ne_nil _ this
+    obtain ⟨h1, h2⟩ := List.mem_filter.1 hp
+    obtain ⟨h3, h4⟩ := mem_validSet.1 h1
+    have := coverageMask_complete m.c m.vc m.st h.1.2 hv p h3 h4
+    rw [show p >>> m.c.shift = k by simpa using h2] at this
+    exact this
+  refine ⟨?_, hcov, fun k hk hc => ?_⟩
+  · have e : (vsOf m) = (List.range m.c.ncov).flatMap fun k =>
+        (validIn m.c m.vc m.st k).map fun j => k * m.c.nfine + j :=
+      validSet_eq_flatMap m.c m.vc m.st
+    rw [e, List.length_flatMap]
+    congr 1
+    apply List.map_congr_left
+    intro k hk
+    rw [countUnder_covord,
+      ← validIn_eq_filter m.c m.vc m.st (List.mem_range.1 hk), List.length_map]
+  · apply Classical.byContradiction
+    intro hne
+    rw [hcov k hk hne] at hc
+    cases hc
+
+/-- **(3) `covmask n`**: the coverage mask, one character per coverage pixel -/
+theorem driver_covmask {w : World} {a : Args} {n : String} {rest : List String}
+    {m : MapObj} (ha : a.pos = n :: rest) (hg : w.get? n = some m) :
+    stepArgs w "covmask" a = (w, showBits ((List.range m.c.ncov).map (covered m.c m.st))) :=
+  ApiAccounting.opCovmask_eq ha hg
+
+/-- **(4) `vpsc n k=K`**: IndexError for `K` outside the coverage map; else the ascending list of
+    the members of the valid set with `p >> shift = K` -/
+theorem driver_vpsc {w : World} (hw : w.Good) {a : Args} {n : String} {rest : List String}
+    {m : MapObj} {K : Nat} (ha : a.pos = n :: rest) (hg : w.get? n = some m)
+    (hK : a.nat? "k" = some K) :
+    stepArgs w "vpsc" a =
+      if K ≥ m.c.ncov then (w, "err IndexError")
+      else (w, showList toString
+        (((vsOf m).filter fun p => p >>> m.c.shift == K).map fun p => ((p : Nat) : Int))) := by
+  have h := hw.get hg
+  have hv := h.2.1.blankInvalid
+  show opVpsc w a = _
+  unfold opVpsc withMap
+  rw [ha]
+  simp only [hg, hK]
+  by_cases hk : K ≥ m.c.ncov
+  · rw [if_pos hk, if_pos hk]; rfl
+  · rw [if_neg hk, if_neg hk, vpsc_eq m.c m.vc m.st h.1.2 hv K (by omega)]
+    simp only
+    rw [← validIn_eq_filter m.c m.vc m.st (by omega : K < m.c.ncov), List.map_map,
+      List.mergeSort_of_pairwise]
+    · rfl
+    · rw [List.pairwise_map]
+      exact (validIn_sorted m.c m.vc m.st K).imp fun h => by
+        simp only [decide_eq_true_eq]
+        omega
+
+/-- (4) the per-coverage-pixel lists, concatenated over ALL coverage pixels in ascending order,
+    are the valid set; concatenated over the BLOCKS in allocation order they are the storage-order
+    listing of `valid_pixels` (`valid_listings`) -/
+theorem vpsc_concat (m : MapObj) :
+    (vsOf m) = (List.range m.c.ncov).flatMap fun K =>
+      (vsOf m).filter fun p => p >>> m.c.shift == K := by
+  have e : (vsOf m) = (List.range m.c.ncov).flatMap fun k =>
+      (validIn m.c m.vc m.st k).map fun j => k * m.c.nfine + j :=
+    validSet_eq_flatMap m.c m.vc m.st
+  conv => lhs; rw [e]
+  apply ApiAccounting.flatMap_congr'
+  intro K hK
+  exact validIn_eq_filter m.c m.vc m.st (List.mem_range.1 hK)
+
+/-- **(5) `fracdet n ord=O r=F`**: ValueError unless `covord ≤ O ≤ spord`; else `F` is bound to
+    `fracMap m O` (float64, sentinel 0, orders `(covord, O)`), the answer is `ok` -/
+theorem driver_fracdet {w : World} {a : Args} {n : String} {rest : List String} {m : MapObj}
+    {r : String} {O : Nat} (ha : a.pos = n :: rest) (hg : w.get? n = some m)
+    (hr : a.get? "r" = some r) (hO : a.nat? "ord" = some O) :
+    stepArgs w "fracdet" a =
+      if O > m.spord ∨ O < m.covord then (w, "err ValueError")
+      else (w.bind r (fracMap m O), "ok") := by
+  rw [show ("err ValueError" : String) = errLine .value by decide]
+  exact ApiAccounting.opFracdet_eq ha hg hr hO
+
+/-- **(5) the fracdet map, entry by entry** (what `vals F` then prints, pixel by pixel): pixel `q`
+    of order `O` holds (number of members of the valid set below `q`) / `4^(spord−O)` as an exact
+    dyadic; the map is well formed and has the coverage mask of `m`.  At `O = covord` the
+    numerator is the `covmap` entry (the same `countUnder m covord`), at `O = spord` the 0/1
+    validity indicator. -/
+theorem fracdet_entries {m : MapObj} (h : m.Ok) {O : Nat} (hlo : m.covord ≤ O) (hhi : O ≤ m.spord) :
+    (fracMap m O).WF ∧ (fracMap m O).view = none ∧
+    (∀ q, q < 12 * 4 ^ O → (fracMap m O).abs q = fracVal (countUnder m O q) (2 * (m.spord - O))) ∧
+    (∀ k, k < m.c.ncov → covered (fracMap m O).c (fracMap m O).st k = covered m.c m.st k) ∧
+    (∀ q, countUnder m m.spord q = if q ∈ vsOf m then 1 else 0) ∧
+    (∀ n, fracVal n 0 = .num n 0) := by
+  obtain ⟨h1, h2, h3⟩ := ApiAccounting.fracMap_spec h.1 h.2.1.blankInvalid hlo hhi
+  exact ⟨h1, rfl, h2, h3, ApiAccounting.countUnder_spord m, fun _ => rfl⟩
+
+/-- `vals F` prints the dense view of whatever `F` resolves to -/
+theorem driver_vals {w : World} {a : Args} {n : String} {rest : List String} {m : MapObj}
+    (ha : a.pos = n :: rest) (hg : w.get? n = some m) :
+    stepArgs w "vals" a = (w, showVals ((List.range m.npix).map m.abs)) :=
+  ApiAccounting.opVals_eq ha hg
+
+/-- **(6) ALL the accounting observers agree, at every point of every history.**  In the world
+    reached by ANY protocol history, for ANY name `n` that resolves to a map `m` (an owning map or
+    a view, of any kind), with `S` the dense valid set `{p < npix | valid (m.abs p)}` (ascending):
+
+    * `valid n` — every `path=` (list, mask, iter, covpix_maps, pos) — prints `S`;
+    * `nvalid n` — every `path=` (n_valid, area, str) — prints `|S|` (the one exception D
+      characterised: `path=str` of a bit-packed map without a cached count prints `nocount`); the
+      `area` path has no token of its own: the harness divides the library's area by the pixel
+      area and the model prints the count;
+    * `covmap n` prints, per coverage pixel `k`, `|{p ∈ S | p >> shift = k}|`; the entries sum to
+      `|S|`; `covmask n` prints `covered`; a non-zero count implies covered;
+    * `vpsc n k=K` prints `{p ∈ S | p >> shift = K}` ascending (IndexError beyond the coverage map);
+      these lists concatenated over `K` ascending give `S` back;
+    * `fracdet n ord=O r=F` binds `F` to a map whose pixel `q` holds
+      `|{p ∈ S | p >> 2(spord−O) = q}| / 4^(spord−O)`.
+
+    None of `valid`, `covmap`, `covmask`, `vpsc` changes the world, `nvalid` only fills the cache
+    (which is never stale: `reachable_cache_fresh`), and the theorem holds for EVERY history — in
+    particular for one that contains earlier queries: an earlier query never makes a later answer
+    stale. -/
+theorem reachable_observers_agree (lines : List String) {n : String} {m : MapObj}
+    (hg : (runLines lines).get? n = some m) :
+    (vsOf m).Pairwise (· < ·) ∧
+    (∀ p, p ∈ vsOf m ↔ p < m.npix ∧ m.vc.valid (m.abs p) = true) ∧
+    (∀ (a : Args) (rest : List String), a.pos = n :: rest →
+      stepArgs (runLines lines) "valid" a =
+        (runLines lines, showList toString ((vsOf m).map fun p => ((p : Nat) : Int)))) ∧
+    (∀ (a : Args) (rest : List String), a.pos = n :: rest →
+      (stepArgs (runLines lines) "nvalid" a).2 =
+        if (m.cache.isNone && (a.get? "path" == some "str" && m.kind == .packed)) = true
+        then "nocount" else toString (vsOf m).length) ∧
+    (∀ (a : Args) (rest : List String), a.pos = n :: rest →
+      stepArgs (runLines lines) "covmap" a =
+        (runLines lines, showNats ((List.range m.c.ncov).map fun k => countUnder m m.covord k))) ∧
+    ((List.range m.c.ncov).map fun k => countUnder m m.covord k).sum = (vsOf m).length ∧
+    (∀ (a : Args) (rest : List String), a.pos = n :: rest →
+      stepArgs (runLines lines) "covmask" a =
+        (runLines lines, showBits ((List.range m.c.ncov).map (covered m.c m.st)))) ∧
+    (∀ k, k < m.c.ncov → countUnder m m.covord k ≠ 0 → covered m.c m.st k = true) ∧
+    (∀ (a : Args) (rest : List String) (K : Nat), a.pos = n :: rest → a.nat? "k" = some K →
+      stepArgs (runLines lines) "vpsc" a =
+        if K ≥ m.c.ncov then (runLines lines, "err IndexError")
+        else (runLines lines, showList toString
+          (((vsOf m).filter fun p => p >>> m.c.shift == K).map fun p => ((p : Nat) : Int)))) ∧
+    (vsOf m = (List.range m.c.ncov).flatMap fun K => (vsOf m).filter fun p => p >>> m.c.shift == K) ∧
+    (∀ (a : Args) (rest : List String) (r : String) (O : Nat), a.pos = n :: rest →
+      a.get? "r" = some r → a.nat? "ord" = some O → m.covord ≤ O → O ≤ m.spord →
+      stepArgs (runLines lines) "fracdet" a = ((runLines lines).bind r (fracMap m O), "ok") ∧
+      ∀ q, q < 12 * 4 ^ O →
+        (fracMap m O).abs q = fracVal (countUnder m O q) (2 * (m.spord - O))) := by
+  have hw := Good.runLines lines
+  have hok : m.Ok := hw.get hg
+  obtain ⟨l1, _, l3, _⟩ := valid_listings hok
+  obtain ⟨c1, c2, _⟩ := covmap_facts hok
+  refine ⟨l1, l3, fun a rest ha => driver_valid hw ha hg, ?_, fun a rest ha => driver_covmap hw ha hg,
+    c1, fun a rest ha => driver_covmask ha hg, c2, fun a rest K ha hK => driver_vpsc hw ha hg hK,
+    vpsc_concat m, ?_⟩
+  · intro a rest ha
+    rw [reachable_nvalid lines a n rest m ha hg,
+      nValid_eq m.c m.vc m.st hok.1.2 hok.2.1.blankInvalid]
+  · intro a rest r O ha hr hO hlo hhi
+    refine ⟨?_, (fracdet_entries hok hlo hhi).2.2.1⟩
+    rw [driver_fracdet ha hg hr hO, if_neg (by omega)]
+
+/-- the count function in full: `countUnder m O q` is the number of members of the valid set
+    whose ancestor at order `O` is `q` -/
+theorem countUnder_def (m : MapObj) (O q : Nat) :
+    countUnder m O q = ((vsOf m).filter fun p => p >>> (2 * (m.spord - O)) == q).length := rfl
+
+/-! ### the converse of "non-zero count ⇒ covered" fails exactly for allocated-but-empty blocks -/
+
+namespace Witness
+
+/-- `make_empty(cov_pixels=[3])`: coverage pixel 3 is allocated, no pixel is valid -/
+def emptyBlock : Except Err MapObj := apiMakeEmpty 0 1 (.plain (.flt 64)) none [3]
+
+theorem covered_without_valid :
+    WFApi.okAnd emptyBlock (fun m => decide m.Ok && covered m.c m.st 3 &&
+      decide (countUnder m m.covord 3 = 0) && decide (3 < m.c.ncov) && decide (vsOf m = [])) = true := by
+  decide +kernel
+
+/-- "covered ⇒ non-zero count" is false: a block allocated by `cov_pixels=` (or left behind by
+    clearing its pixels) is covered and counts 0 -/
+theorem covered_imp_count_false :
+    ¬ ∀ (m : MapObj), m.Ok → ∀ k, k < m.c.ncov → covered m.c m.st k = true →
+        countUnder m m.covord k ≠ 0 := by
+  intro H
+  obtain ⟨m, _, hP⟩ := (WFApi.okAnd_iff _ _).1 covered_without_valid
+  simp only [Bool.and_eq_true, decide_eq_true_eq] at hP
+  obtain ⟨⟨⟨⟨h1, h2⟩, h3⟩, hk⟩, _⟩ := hP
+  exact H m h1 3 hk h2 h3
+
+end Witness
+
+/-! ### non-vacuity (evaluated by the compiler: the kernel cannot run the string parser) -/
+
+-- an int32 map at orders (0, 1): coverage pixel 7 pre-allocated and never written, blocks
+-- allocated in the order 7, 10, 2, 0 (shuffled), pixel 9 written then cleared — the observers:
+-- `valid` (two paths), `nvalid` (three paths), `covmap`, `covmask` (pixel 7 covered with count 0),
+-- `vpsc` (a covered, an empty-covered, an out-of-range coverage pixel), `fracdet` at both ends
+-- (`1^2` is 1/4: one valid pixel of four) and beyond
+#guard answers ["cfg m kind=plain dtype=i4 covord=0 spord=1 covpix=7",
+    "upd m pix=40,9,8,3 vals=1,2,3,4", "upd m pix=9 none=1",
+    "valid m", "valid m path=iter", "nvalid m", "nvalid m path=area", "nvalid m path=str",
+    "covmap m", "covmask m", "vpsc m k=2", "vpsc m k=7", "vpsc m k=12",
+    "fracdet m ord=0 r=F", "vals F", "fracdet m ord=1 r=G", "vals G", "fracdet m ord=2 r=H"]
+  == ["ok", "ok", "ok", "3,8,40", "3,8,40", "3", "3", "3", "1,0,1,0,0,0,0,0,0,0,1,0", "101000010010",
+      "8", "_", "err IndexError", "ok", "1^2,0,1^2,0,0,0,0,0,0,0,1^2,0", "ok",
+      "0,0,0,1,0,0,0,0,1,0,0,0,0,0,0,0,0,0,0,0,0,0,0,0,0,0,0,0,0,0,0,0,0,0,0,0,0,0,0,0,1,0,0,0,0,0,0,0",
+      "err ValueError"]
+
+-- a view of a record field, a bit-packed map, a wide mask (a zero row is invalid: coverage pixel 2
+-- covered with count 0)
+#guard answers ["cfg p kind=rec covord=0 spord=1 fields=i2,f8 primary=0", "upd p pix=5,44 vals=r3;2,r4;1",
+    "single p field=1 r=v", "valid v", "nvalid v", "covmap v", "covmask v", "vpsc v k=1",
+    "fracdet v ord=0 r=F", "vals F", "valid p", "nvalid p"]
+  == ["ok", "ok", "ok", "5,44", "2", "0,1,0,0,0,0,0,0,0,0,0,1", "010000000001", "5", "ok",
+      "0,1^2,0,0,0,0,0,0,0,0,0,1^2", "5,44", "2"]
+#guard answers ["cfg p kind=packed covord=0 spord=2", "upd p pix=4,5,6,7,40 val=T", "valid p",
+    "nvalid p path=str", "nvalid p", "nvalid p path=str", "covmap p", "covmask p", "vpsc p k=0"]
+  == ["ok", "ok", "4,5,6,7,40", "nocount", "5", "5", "4,0,1,0,0,0,0,0,0,0,0,0", "101000000000", "4,5,6,7"]
+#guard answers ["cfg w kind=wide maxbits=16 covord=0 spord=1", "upd w pix=0,9 vals=b3.1,b0.0", "valid w",
+    "nvalid w", "covmap w", "covmask w", "vpsc w k=2", "fracdet w ord=0 r=F", "vals F"]
+  == ["ok", "ok", "0", "1", "1,0,0,0,0,0,0,0,0,0,0,0", "101000000000", "_", "ok", "1^2,0,0,0,0,0,0,0,0,0,0,0"]
+
+-- the hypotheses of the map-level theorems are satisfiable (shuffled block order)
+example : WFApi.okAnd (apiMakeEmpty 0 1 (.plain (.int 32 true)) none [7] >>= fun e =>
+      apiUpdate e "replace" [40] (some [.num 1 0]) false >>= fun e =>
+      apiUpdate e "replace" [8, 3] (some [.num 3 0, .num 4 0]) false)
+    (fun m => decide m.Ok && decide (vsOf m = [3, 8, 40]) &&
+      decide (validPixels m.c m.vc m.st = some [40, 3, 8]) &&
+      decide ((List.range m.c.ncov).map (fun k => countUnder m m.covord k) = [1, 0, 1, 0, 0, 0, 0, 0, 0, 0, 1, 0])) = true := by
+  decide +kernel
+
+end driver
 end C02
 end HS
